@@ -84,6 +84,14 @@ theorem forms_agree (fs : Str → Option Str) (l : List Str) (p : Str) (side : I
   have h4 : normalise fs .none = normalise fs (.list []) := rfl
   simp only [init, h1, h2, h3, h4, and_self]
 
+/-- **The printed diff is its command list.** `render` prints one command per line, two blanks
+per ancestor; reading those lines back with the loader's own indentation rule recovers exactly
+`paths delta`, in order.  So the `paths (diff old new)` of the theorems above are the commands a
+reader of `get_diff()` sees.  (Hypothesis: the texts are ones the loader stores.) -/
+theorem printed_commands (delta : Forest) (hN : ∀ p ∈ paths delta, ∀ t ∈ p, NormalText t) :
+    linePaths [] ((render delta).filterMap normLine) = paths delta :=
+  linePaths_render delta hN
+
 /-! ### non-vacuity: concrete configurations meeting the hypotheses -/
 
 private def oldText : Str :=
@@ -117,6 +125,10 @@ example : (["router ospf 1".toList, "net 10.0.0.0".toList] : Path) ∈ paths (lo
 example : apply ([["no b"], ["a"], ["a", "c"]].map (·.map String.toList))
       ([["a"], ["b"], ["b", "x"], ["bb"]].map (·.map String.toList)) =
     [["a"], ["bb"], ["a"], ["a", "c"]].map (·.map String.toList) := by decide +kernel
+
+-- the texts of the example delta are normal (hypothesis of `printed_commands`)
+example : ∀ p ∈ paths (diff (loadTree oldText) (loadTree newText)), ∀ t ∈ p, NormalText t := by
+  unfold NormalText; decide +kernel
 
 -- the diff of a non-empty configuration with itself
 example : getDiff (loadTree oldText, loadTree oldText) = [] := by decide +kernel
